@@ -435,13 +435,17 @@ class DiscriminatedUnionUnpackerBuilder(AbstractUnpackerBuilder):
                     f"{variants_type_expr}, {discriminator.field!r}, "
                     "discriminator) from None"
                 )
+            # Only the registry / method lookup is guarded: the variant is
+            # called outside, so that a KeyError or AttributeError raised
+            # by the variant itself is not taken for an unknown tag
+            variant_call_args = variant_method_call[len(variant_method_name) :]
             with lines.indent("try:"):
                 if spec.builder.is_nailed:
-                    lines.append(f"return {chosen_cls}.{variant_method_call}")
+                    lines.append(f"unpack = {chosen_cls}.{variant_method_name}")
                 else:
                     lines.append(
-                        f"return {spec.attrs_registry_name}"
-                        f"[{chosen_cls}].{variant_method_call}"
+                        f"unpack = {spec.attrs_registry_name}"
+                        f"[{chosen_cls}].{variant_method_name}"
                     )
             with lines.indent("except (KeyError, AttributeError):"):
                 lines.append(f"variants_map = {variants_map}")
@@ -463,14 +467,14 @@ class DiscriminatedUnionUnpackerBuilder(AbstractUnpackerBuilder):
                 with lines.indent("try:"):
                     if spec.builder.is_nailed:
                         lines.append(
-                            "return variants_map[discriminator]"
-                            f".{variant_method_call}"
+                            "unpack = variants_map[discriminator]"
+                            f".{variant_method_name}"
                         )
                     else:
                         lines.append(
-                            f"return {spec.attrs_registry_name}["
+                            f"unpack = {spec.attrs_registry_name}["
                             "variants_map[discriminator]]"
-                            f".{variant_method_call}"
+                            f".{variant_method_name}"
                         )
                 with lines.indent("except KeyError:"):
                     lines.append(
@@ -478,6 +482,7 @@ class DiscriminatedUnionUnpackerBuilder(AbstractUnpackerBuilder):
                         f"{variants_type_expr}, {discriminator.field!r}, "
                         "discriminator) from None"
                     )
+            lines.append(f"return unpack{variant_call_args}")
         else:
             with lines.indent(f"for variant in {variants}:"):
                 with lines.indent("try:"):
